@@ -25,8 +25,10 @@ ENTRY = dict(
     trusted_base=["/repo/verif_server.go (scripted server, MutateHandshakeMsg choke point) and harness/hs; hooks verif_c22.go, verif_c34.go "
                   "(VerifC34UnmarshalHandshakeMessage, VerifC34UnmarshalCompressedCert, VerifC34WriteHandshakeRecord), verif_c21.go "
                   "(VerifDecompressCert), verif_c12.go",
-                  "runtime.MemStats.TotalAlloc around one connection: client and in-process scripted server together (certificates are "
-                  "compressed ahead of time so that encoder memory stays out); 12 MiB = 8 MiB RFC 8878 decoder window + messages + slack",
+                  "runtime.MemStats.TotalAlloc (process-wide) around one connection, runner strictly serial, every compressed payload prepared "
+                  "ahead of time (the in-process server never runs an encoder inside a measured window); a delta above the limit is "
+                  "re-measured (up to 3 serial attempts, fresh script / session cache, pause + runtime.GC() in between) and the SMALLEST "
+                  "delta is judged; 12 MiB = 8 MiB RFC 8878 decoder window + messages + slack",
                   "loopback TCP and the Go scheduler: a hang is 'client goroutine not returned 2 s after the connection deadline'",
                   "Model/RobustSrv.v cryptobyte / readHandshake model (shared with C34), Model/Alps.v (shared with C22)"],
     assumes=["upstream unmarshalers of the standard handshake messages are total boolean functions (Section variable std) and the handlers "
